@@ -465,3 +465,7 @@ def run(ctx):
     _run_main2(ctx)
     extras2(ctx)
     ctx.flush()
+
+
+# evidence: how the model is tied to the source on every run (as built, supersedes the value above)
+TIE = 'translator (zero crossings incl. the tol loop, switched-peak grouping loop -> Gen/CrossingsFns; Props/C12Gen) + correspondence (exhaustive, exact)'
